@@ -74,7 +74,7 @@ func genC13Overlap(t *rapid.T) *Case {
 			ds = append(ds, rapid.SampledFrom(hostProps).Draw(t, "ovp")+": "+rapid.SampledFrom(vals).Draw(t, "ovv"))
 		}
 		in := "<" + el + ` id="i" style="` + strings.Join(ds, "; ") + `" title="` + rapid.SampledFrom(vals).Draw(t, "ovt") + `" class="` + rapid.SampledFrom(vals).Draw(t, "ovc") + `">t</` + el + ">"
-		if rapid.IntRange(0, 9).Draw(t, "ovbig") == 0 {
+		if i == 0 && rapid.IntRange(0, 3).Draw(t, "ovbig") == 0 {
 			in += strings.Repeat("filler text "+itoa(i)+" ", 400) // > 4 KiB: large-buffer paths
 		}
 		c.Inputs = append(c.Inputs, BStr(in))
@@ -92,7 +92,7 @@ func genC13(t *rapid.T) *Case {
 	c := &Case{Spec: spec}
 	for i := 0; i < n; i++ {
 		in := genSoup(t, m, &soupOpts{maxFrags: 8, els: []string{"my-x", "x-a-y", "span", "h1"}, attrs: []string{"style", "href", "src"}})
-		if rapid.IntRange(0, 9).Draw(t, "big") == 0 {
+		if i == 0 && rapid.IntRange(0, 3).Draw(t, "big") == 0 {
 			in += strings.Repeat("<b>filler "+itoa(i)+"</b> text ", 300) // > 4 KiB
 		}
 		c.Inputs = append(c.Inputs, BStr(in))
@@ -138,7 +138,7 @@ func checkC13(c *Case, r *Rec) error {
 		base[i] = allEntryPoints(p, string(in))
 	}
 	// (2) concurrent use of the same policy
-	const G = 16
+	const G = 12
 	var wg sync.WaitGroup
 	errs := make([]error, G)
 	for g := 0; g < G; g++ {
